@@ -42,7 +42,10 @@ class VMModel:
                 continue
             hir = b["hir"]
             sites = [n for n, ps in F.calls(hir["value"]) if self.is_buffer_add(n)]
-            if sites and len(hir["params"]) == 2:
+            # a wrapper records its argument unconditionally; a helper that decides *whether* to record is analysed as
+            # ordinary code (its recording sites are sites of their own)
+            conditional = any(any(a.get("k") in ("If", "Match") and not a.get("exp") for a, _ in ps) for n, ps in F.calls(hir["value"]) if self.is_buffer_add(n))
+            if sites and len(hir["params"]) == 2 and not conditional:
                 p = hir["params"][1]
                 if p.get("p") == "Bind":
                     for n in sites:
